@@ -5,6 +5,7 @@ import (
 	"errors"
 	"fmt"
 	"io"
+	"os"
 	"strconv"
 	"strings"
 	"sync"
@@ -52,6 +53,7 @@ type stage struct {
 	M    int    `json:"m,omitempty"`   // byte lines
 	Pat  int    `json:"pat,omitempty"` // interleaving pattern of a source
 	Fail int    `json:"fail,omitempty"`
+	NoEOL bool  `json:"no_eol,omitempty"` // the last byte line has no terminator
 	Tag  string `json:"tag,omitempty"`
 	Text string `json:"text"`
 	// model results
@@ -66,6 +68,7 @@ type c18case struct {
 	Stages  []*stage `json:"stages"`
 	Code    string   `json:"code"`
 	PipeCap int      `json:"pipe_cap"`
+	OutPort string   `json:"out_port,omitempty"`
 	Nested  string   `json:"nested,omitempty"`
 }
 
@@ -141,8 +144,19 @@ func genC18(c *Ctx) *c18case {
 		t := tag()
 		last := i == nst-1
 	again:
-		k := w.Draw(20)
+		k := w.Draw(23)
 		switch k {
+		case 20:
+			// a stage whose input is redirected away from the pipe: it never
+			// reads what the previous stage writes
+			st.Kind, st.Text = "nop", "nop < /dev/null"
+		case 21:
+			st.Kind, st.Text = "countnull", "count < /dev/null"
+		case 22:
+			// a producer in the middle of the pipeline that ignores its input
+			// and writes more than the buffers hold
+			st.Kind, st.N = "midrange", sz(maxItems*2)
+			st.Text = fmt.Sprintf("range %d", st.N)
 		case 0, 1:
 			st.Kind, st.Text = "relay", fmt.Sprintf("vrelay %d", i)
 		case 2, 3:
@@ -215,6 +229,18 @@ func genC18(c *Ctx) *c18case {
 	case 1:
 		cs.Nested = "fn"
 		cs.Code = "fn f { " + cs.Code + " }; f"
+	}
+	cs.OutPort = []string{"capture", "capture", "capture", "valuecapture", "stringcapture", "fileport"}[w.Draw(6)]
+	if lo := cs.Stages[len(cs.Stages)-1].out; cs.OutPort == "fileport" && lo.v.total() > 0 && lo.b.total() > 0 {
+		// The file port writes a value as three separate writes (prefix, text,
+		// newline) to the same file the byte band goes to; with both bands in
+		// use, lines legitimately interleave mid-line on a terminal.
+		cs.OutPort = "capture"
+	}
+	if cs.Stages[0].Kind == "src" && w.Chance(1, 3) && (cs.OutPort == "capture" || cs.OutPort == "valuecapture") {
+		// (the string-capture port and the file port are line-oriented sinks
+		// for the terminal, where an unterminated last line is not a line)
+		cs.Stages[0].NoEOL = true
 	}
 	return cs
 }
@@ -305,6 +331,12 @@ func modelC18(sts []*stage, i int) bool {
 	case "nop":
 		st.early = merged.total() > 0
 		st.out = stream{}
+	case "countnull":
+		st.early = merged.total() > 0
+		st.out = stream{v: band{{"0"}}}
+	case "midrange":
+		st.early = merged.total() > 0
+		st.out = stream{v: band{seqOf("", st.N)}.nonEmpty()}
 	case "failstart":
 		st.early = merged.total() > 0
 		st.outcome = st.Tag
@@ -393,13 +425,27 @@ func (e tagError) Error() string { return "vfail:" + e.tag }
 func (r *c18run) vsrc(fm *eval.Frame, id int) error {
 	p := r.cs.Stages[id]
 	vout, bout := fm.ValueOutput(), fm.ByteOutput()
-	for k, it := range srcOrder(p) {
+	order := srcOrder(p)
+	// index of the last byte line this source will emit (it may be left
+	// without a line terminator: readers must still deliver it)
+	lastB := -1
+	for k, it := range order {
+		if p.Fail > 0 && k >= p.Fail-1 {
+			break
+		}
+		if !it.val {
+			lastB = k
+		}
+	}
+	for k, it := range order {
 		if p.Fail > 0 && k >= p.Fail-1 {
 			return tagError{p.Tag}
 		}
 		var err error
 		if it.val {
 			err = vout.Put(it.s)
+		} else if p.NoEOL && k == lastB {
+			_, err = bout.WriteString(it.s)
 		} else {
 			_, err = bout.WriteString(it.s + "\n")
 		}
@@ -586,17 +632,68 @@ func runC18(c *Ctx) {
 			ev.ExtendGlobal(eval.BuildNs().AddGoFns(map[string]any{
 				"vsrc": r.vsrc, "vrelay": r.vrelay, "vsink": r.vsink, "vfailafter": r.vfailafter,
 			}))
-			outPort, collect, err := eval.CapturePort()
-			if err != nil {
-				panic(err)
-			}
 			errPort, collectErr, err := eval.CapturePort()
 			if err != nil {
 				panic(err)
 			}
+			// The final output goes through one of the kinds of output port the
+			// interpreter offers.
+			var outPort *eval.Port
+			var finish func()
+			switch cs.OutPort {
+			case "valuecapture":
+				p, collect, err := eval.ValueCapturePort()
+				if err != nil {
+					panic(err)
+				}
+				outPort, finish = p, func() { outVals = collect() }
+			case "stringcapture":
+				p, collect, err := eval.StringCapturePort()
+				if err != nil {
+					panic(err)
+				}
+				outPort, finish = p, func() {
+					for _, l := range collect() {
+						outVals = append(outVals, strings.TrimPrefix(l, "▶ "))
+					}
+				}
+			case "fileport":
+				// what the shell uses for the terminal: values are written to
+				// the file as prefixed lines by a relay goroutine
+				rd, wr, err := os.Pipe()
+				if err != nil {
+					panic(err)
+				}
+				p, cleanup := eval.FilePort(wr, "▶ ")
+				var lines []string
+				readerDone := make(chan struct{})
+				go func() {
+					readLines(rd, func(l string) bool { lines = append(lines, l); return true })
+					rd.Close()
+					close(readerDone)
+				}()
+				outPort, finish = p, func() {
+					cleanup()
+					wr.Close()
+					<-readerDone
+					for _, l := range lines {
+						l = strings.TrimPrefix(l, "▶ ")
+						if strings.HasPrefix(l, "(num ") {
+							l = strings.TrimSuffix(strings.TrimPrefix(l, "(num "), ")")
+						}
+						outVals = append(outVals, l)
+					}
+				}
+			default:
+				p, collect, err := eval.CapturePort()
+				if err != nil {
+					panic(err)
+				}
+				outPort, finish = p, func() { outVals, outBytes = collect() }
+			}
 			evalErr = ev.Eval(parse.Source{Name: "[c18]", Code: cs.Code},
 				eval.EvalCfg{Ports: []*eval.Port{eval.DummyInputPort, outPort, errPort}})
-			outVals, outBytes = collect()
+			finish()
 			collectErr()
 			done = true
 		})
@@ -668,11 +765,21 @@ func checkC18(c *Ctx, r *c18run, evalErr error, outVals []any, outBytes []byte) 
 	if len(outBytes) > 0 {
 		gb = strings.Split(strings.TrimSuffix(string(outBytes), "\n"), "\n")
 	}
-	if err := checkMerge(gv, last.out.v, false); err != nil {
-		c.Violation("delivery", "final value output: %v", err)
-	}
-	if err := checkMerge(gb, last.out.b, false); err != nil {
-		c.Violation("delivery", "final byte output: %v", err)
+	if cs.OutPort != "" && cs.OutPort != "capture" {
+		// The other kinds of output port deliver both bands in one sequence
+		// (the harness has normalised it to plain item texts in gv): it must be
+		// an order-preserving merge of the two bands.
+		both := append(append(band{}, last.out.v...), last.out.b...)
+		if err := checkMerge(gv, both, false); err != nil {
+			c.Violation("delivery", "final output through a %s port: %v", cs.OutPort, err)
+		}
+	} else {
+		if err := checkMerge(gv, last.out.v, false); err != nil {
+			c.Violation("delivery", "final value output: %v", err)
+		}
+		if err := checkMerge(gb, last.out.b, false); err != nil {
+			c.Violation("delivery", "final byte output: %v", err)
+		}
 	}
 	// Error composition.
 	want := make([][]string, n) // allowed outcomes per stage
